@@ -1,0 +1,35 @@
+//go:build verif
+
+package priority
+
+import (
+	"github.com/akramarenkov/cqos/internal/general"
+	"github.com/akramarenkov/cqos/priority/internal/common"
+)
+
+// Verification hooks (build tag verif): expose unexported pure helpers.
+
+func VerifGenCombinations(priorities []uint) [][]uint {
+	return genPriorityCombinations(priorities)
+}
+
+func VerifSortPriorities(priorities []uint) { common.SortPriorities(priorities) }
+
+func VerifSumPriorities(priorities []uint) uint { return common.SumPriorities(priorities) }
+
+func VerifDivideWithMin(base uint, divider uint, min uint) uint {
+	return general.DivideWithMin(base, divider, min)
+}
+
+func VerifRemovePriority(priorities []uint, removed uint) []uint {
+	return removePriority(priorities, removed)
+}
+
+func VerifSafeDivide(
+	divider Divider,
+	priorities []uint,
+	dividend uint,
+	distribution map[uint]uint,
+) error {
+	return safeDivide(divider, priorities, dividend, distribution)
+}
